@@ -738,3 +738,14 @@ def unconditional_calls(stmts, pred):
         if tgt.get('k') in ('Call', 'MethodCall') and pred(tgt):
             out.append(tgt)
     return out
+
+
+def impl_method(facts, trait_prefix, self_ty, method):
+    """fn key of `method` in the local impl of a trait (matched on its printed path prefix, generic args included when given)
+    for the given self type — independent of the module the impl block lives in. None if absent."""
+    for im in facts['impls']:
+        if im['trait'] and im['trait'].startswith(trait_prefix) and im['self'] == self_ty:
+            for n, k in im['methods']:
+                if n == method:
+                    return k
+    return None
